@@ -1,9 +1,12 @@
 """Worker: a SEQUENCE of fitting-pipeline calls in ONE process (same-process histories for C16).
 
-argv[1] = JSON {"data_dir":..., "calls": [{"fn_set","comp","data_file","run_name","seed","kw"}, ...]}
+argv[1] = JSON {"data_dir":..., "calls": [{"fn_set","comp","data_file","run_name","seed","kw"}, ...],
+                "memstate": path-or-null      fingerprint of every in-memory cell before/after each call (workers/memsnap.py),
+                "api_probe": path-or-null     what the single-function API returns in the still fresh process and after the calls,
+                "pre_recursionlimit": int-or-null}
 The numpy RNG is re-seeded at the start of every call (the property fixes inputs and seed of the observed call).
 """
-import json, sys
+import json, os, sys
 cfg = json.loads(sys.argv[1])
 import numpy as np
 import esr.fitting.likelihood as L
@@ -11,11 +14,81 @@ import esr.fitting.test_all as test_all
 import esr.fitting.test_all_Fisher as fisher
 import esr.fitting.match as match
 import esr.fitting.combine_DL as combine
-for c in cfg["calls"]:
-    np.random.seed(int(c.get("seed", 0)))
-    lik = L.GaussLikelihood(c["data_file"], c["run_name"], data_dir=cfg["data_dir"], fn_set=c["fn_set"])
-    kw = c.get("kw", {})
-    test_all.main(c["comp"], lik, **kw)
-    fisher.main(c["comp"], lik)
-    match.main(c["comp"], lik)
-    combine.main(c["comp"], lik)
+from contextlib import contextmanager
+
+mem = None
+if cfg.get("memstate"):
+    sys.path.insert(0, os.path.dirname(os.path.abspath(__file__)))
+    import memsnap
+    mem = []
+
+
+@contextmanager
+def watch(entry, **info):
+    if mem is None:
+        yield
+    else:
+        with memsnap.watch(mem, entry, **info):
+            yield
+
+
+PROBE_BASIS = [["x", "a"], ["inv", "sqrt_abs", "square", "exp", "log_abs"], ["+", "*", "-", "/", "pow"]]
+PROBE_STRINGS = ["sqrt_abs(a0*a0)*x", "log_abs(a0*a0)+x", "a0*x+a1"]
+probe = {}
+
+
+def api_probe(tag):
+    """fit_single's string front end (no data needed): labels and complexity it derives from a formula string"""
+    import esr.fitting.fit_single as fs
+    import esr.generation.generator as generator
+    out = []
+    for s in PROBE_STRINGS:
+        try:
+            with watch("esr.fitting.fit_single.string_to_aifeyn", probe=tag, s=s):
+                r = fs.string_to_aifeyn(s, PROBE_BASIS, verbose=False)
+            out.append([s, repr(r)])
+        except Exception as e:
+            out.append([s, "raises %s" % type(e).__name__])
+    try:
+        with watch("esr.fitting.fit_single.tree_to_aifeyn", probe=tag):
+            out.append(["tree", repr(fs.tree_to_aifeyn(["+", "a0", "x"], PROBE_BASIS, verbose=False))])
+    except Exception as e:
+        out.append(["tree", "raises %s" % type(e).__name__])
+    probe[tag] = out
+
+
+try:
+    if cfg.get("api_probe"):
+        import esr.fitting.fit_single
+        api_probe("fresh")
+    if cfg.get("pre_recursionlimit"):
+        sys.setrecursionlimit(int(cfg["pre_recursionlimit"]))
+    for k, c in enumerate(cfg["calls"]):
+        np.random.seed(int(c.get("seed", 0)))
+        with watch("Likelihood()", k=k):
+            lik = L.GaussLikelihood(c["data_file"], c["run_name"], data_dir=cfg["data_dir"], fn_set=c["fn_set"])
+        kw = c.get("kw", {})
+        info = dict(k=k, args=[c["fn_set"], c["comp"]])
+        with watch("esr.fitting.test_all.main", **info):
+            test_all.main(c["comp"], lik, **kw)
+        with watch("esr.fitting.test_all_Fisher.main", **info):
+            fisher.main(c["comp"], lik)
+        with watch("esr.fitting.match.main", **info):
+            match.main(c["comp"], lik)
+        with watch("esr.fitting.combine_DL.main", **info):
+            combine.main(c["comp"], lik)
+    if cfg.get("api_probe"):
+        api_probe("after")
+        if cfg.get("api_fit"):
+            import esr.fitting.fit_single as fs
+            np.random.seed(1)
+            with watch("esr.fitting.fit_single.single_function"):
+                fs.single_function(["+", "a0", "x"], PROBE_BASIS, lik, Niter=3, Nconv=2)
+            np.random.seed(1)
+            with watch("esr.fitting.fit_single.fit_from_string"):
+                fs.fit_from_string("a0*x", PROBE_BASIS, lik, Niter=3, Nconv=2)
+finally:
+    if mem is not None:
+        json.dump(mem, open(cfg["memstate"], "w"))
+    if cfg.get("api_probe"):
+        json.dump(probe, open(cfg["api_probe"], "w"))
